@@ -655,6 +655,28 @@ class CIMachine(FormatMachine):
                 CTX.probe("ci.child_variant_serialised")
         return r
 
+    def op_ci_rewrite_type_case(self, op):
+        """A foreign writer stored the release type(s) in another letter case; the documented case-fold applies on load.
+        The facts are unchanged, so the restart oracle stays (only the byte-identical re-dump is off: the library
+        writes lower case)."""
+        import json
+        path = self.path(op)
+        d = self.durable.get(path)
+        if d is None or not d["clean"] or d["expected"] is None or d.get("legacy"):
+            return "noop"
+        doc = json.loads(self.fs.get(path).decode("utf-8"))
+        how = op.get("how", "upper")
+        f = (lambda t: t.upper()) if how == "upper" else (lambda t: t.title())
+        doc["payload"]["release"]["type"] = f(doc["payload"]["release"]["type"])
+        for v in doc["payload"]["variants"].values():
+            if "release" in v:
+                v["release"]["type"] = f(v["release"]["type"])
+        self.fs.put(path, json.dumps(doc, indent=4, sort_keys=True, separators=(",", ": ")))
+        d["bytes"] = self.fs.get(path)
+        d["lossy"] = True
+        CTX.probe("c01.release_type_case_folded_on_load")
+        return "rewritten"
+
     def op_ci_downgrade(self, op):
         """F8: rewrite the stored composeinfo the way an older format version held it (doc/composeinfo-1.0.rst,
         -1.1.rst, property text): 1.1 = header type; 1.0 = no header type, no release/base_product 'type';
